@@ -392,6 +392,7 @@ class Registry:
         self.inline_policy = "auto"  # "auto": repo callees without contract are inlined (and reported); "listed": only listed ones
         self.exception_classes: dict[str, str] = {}
         self.context_managers: dict[str, object] = {}
+        self.extern_values: dict[str, object] = {}  # "pkg.mod.NAME" -> callable(interp) giving the assumed value of an outside attribute
         self.opaque_super: dict[str, tuple] = {}
         self.spec_funcs: dict[str, object] = {}
         self.nominal_methods: dict[str, dict] = {}  # external class qualname -> {method: python model(it, obj, args, kwargs)}
